@@ -9,21 +9,34 @@ Proof.
     repeat match goal with |- context [if ?c then _ else _] => destruct c end; simpl; lia.
 Qed.
 
+Lemma get_esc_tail_shorter (chunk1 : str) r nchunk :
+  match chunk1 with
+  | [] => None
+  | _ :: _ =>
+      let (rn, n) := decode chunk1 in
+      let nchunk := skipn n chunk1 in
+      if ((rn =? rune_error) && Nat.eqb n 1) || (match nchunk with [] => true | _ => false end)
+      then None
+      else Some (rn, nchunk)
+  end = Some (r, nchunk) -> (length nchunk < length chunk1)%nat.
+Proof.
+  destruct chunk1 as [|x y]; [discriminate|].
+  pose proof (decode_width_pos (x :: y)) as Hw.
+  destruct (decode (x :: y)) as [rn n]. simpl snd in Hw. cbv zeta.
+  destruct (((rn =? rune_error) && Nat.eqb n 1) || match skipn n (x :: y) with [] => true | _ => false end);
+    [discriminate|].
+  intros H. inversion H; subst. rewrite skipn_length.
+  assert (1 <= n)%nat by (apply Hw; discriminate). simpl length. lia.
+Qed.
+
 Lemma get_esc_shorter chunk r nchunk :
   get_esc chunk = Some (r, nchunk) -> (length nchunk < length chunk)%nat.
 Proof.
   unfold get_esc. destruct chunk as [|c rest]; [discriminate|].
   destruct ((c =? 45) || (c =? 93)); [discriminate|].
-  set (chunk1 := if c =? 92 then rest else c :: rest).
-  assert (Hle : (length chunk1 <= length (c :: rest))%nat)
-    by (unfold chunk1; destruct (c =? 92); simpl; lia).
-  destruct chunk1 as [|x y] eqn:E; [discriminate|].
-  pose proof (decode_width_pos (x :: y)) as Hw.
-  destruct (decode (x :: y)) as [rn n]. simpl in Hw.
-  destruct (((rn =? rune_error) && Nat.eqb n 1) || match skipn n (x :: y) with [] => true | _ => false end);
-    [discriminate|].
-  intros H. inversion H; subst. rewrite skipn_length.
-  assert (1 <= n)%nat by (apply Hw; discriminate). simpl in *. lia.
+  destruct (c =? 92); intros H.
+  - apply (get_esc_tail_shorter rest) in H. simpl. lia.
+  - apply (get_esc_tail_shorter (c :: rest)) in H. exact H.
 Qed.
 
 Lemma hd_is_nonempty c s : hd_is c s = true -> s <> [].
